@@ -7,6 +7,8 @@ CONSTANTS
   FromInput <- NoDesigns
   ExplicitTargets = FALSE
   Refusals = FALSE
+  ZeroHeightRefused = FALSE
+  AlignTarget = FALSE
   MaxLevel = 99
 SPECIFICATION TSpec
 CONSTRAINT Progress
